@@ -36,6 +36,8 @@ def run(ctx):
     ctx.step(select, ctx, DS)
     ctx.step(noexcept_rule, ctx)
     ctx.step(dtor_rule, ctx)
+    ctx.step(common.no_repeated_moves, ctx, "C16.moves",
+             [f for f in ctx.fb.functions() if f.file.endswith("/DelayedDestructor.hpp")], floor=1)
     ctx.step(common.raii_only, ctx, "C16.raii", ["DelayedDestructor.hpp"], floor=10)
 
 
